@@ -133,7 +133,7 @@ PLAN = {
                                              'the cfg-dependent text is only the category enum: per subset the derived order is re-proved by Kani and the build/export probe is compiled; '
                                              'the parsers are re-verified for both shapes of the enum (with and without the eval_i64 categories)'],
                 unclaimed=['"same result for every input as in the default build" follows from: nothing else is cfg-dependent (S:c17/cfg-frame) and the order of the remaining categories is unchanged; it is not a separately machine-checked relational theorem']),
-    'C18': dict(verus=['number-ast'], kani=['number-l4'], level='proof',
+    'C18': dict(verus=['number-ast', 'number-glue'], kani=['number-l4'], level='proof',
                 assumptions=F64_ASSUME[:2] + ['A-ieee: rustc/LLVM and CBMC agree on IEEE-754 binary64 comparison, floor and float->int casts',
                              'loop-free harness over kani::any::<f64>() / kani::any::<i64>(): every bit pattern, no bound'],
                 unclaimed=[]),
@@ -201,7 +201,7 @@ LEVEL_TEXT = {
                 'the leaf arm of every evaluator returns its payload bit for bit (Verus, all five; Kani f64 / number again).',
     'C20': _V + 'a bracketed group is parsed from level DefaultZero independently of its context (sp_group); every evaluator is a function of its children\'s values: the contract of eval against the recursive specification spec_eval in all five evaluators (Verus), plus per-constructor Kani steps (f64, number).',
 }
-LEVEL_TEXT['C18'] = ('Verus proves the contract of Number::from(f64) (Integer exactly when the value minus its floor is zero and the floor is in [i64::MIN as f64, i64::MAX as f64), the payload being the cast of the floor; Float(value) otherwise) and of Number::from(i64), which every caller in eval_number relies on. Kani/CBMC proves two loop-free harnesses over the full input domain (all 2^64 doubles, all i64) that call the real, '
+LEVEL_TEXT['C18'] = ('Verus proves the contract of Number::from(f64) (Integer exactly when the value minus its floor is zero and the floor is in [i64::MIN as f64, i64::MAX as f64), the payload being the cast of the floor; Float(value) otherwise) and of Number::from(i64), which every caller in eval_number relies on; the rounding functions of eval_number hand the rounded double to Number::from and the wrapper returns the evaluator's Number unchanged (no conversion on the way out). Kani/CBMC proves two loop-free harnesses over the full input domain (all 2^64 doubles, all i64) that call the real, '
                      'unmodified Number::from and assert the exact characterisation of the property; a loop-free full-domain harness is a complete proof.')
 LEVEL_TEXT['C05'] = ('Verus proves for all trees of eval_f64 (any arity, no bound) that every node applies the IEEE / libm primitive the property names to its children\'s values in the stated order, that no node turns a value into Err, '
                      'and that the wrapper returns that value unchanged (the primitives themselves are uninterpreted total functions). Kani/CBMC proves one loop-free harness per Node constructor of eval_f64 over fully symbolic double leaves (every bit pattern): '
